@@ -254,6 +254,9 @@ def check():
     # ------------------------------------------------------------------ 5. CLI vs playground
     relational(o, L, MC, ML, MW, bad, on_sat)
 
+    # ------------------------------------------------------------------ 6. "written" means: the target holds exactly the document
+    file_content_lemma(o, L, ML, bad, on_sat)
+
     o.samples = samples + [{"query": q["name"], "verdict": q["verdict"]} for q in o.queries[:6]]
     # ------------------------------------------------------------------ replay on the real CLI
     if True:   # the real-binary oracle is cheap: always run it (replay of a failing lemma, or translator validation)
@@ -342,6 +345,77 @@ CASES = {
 SENTINEL = "SENTINEL: pre-existing target\n"
 
 
+def file_content_lemma(o, L, ML, bad, on_sat):
+    """DefaultFileSystem::write_file: on every Ok path the file ends up holding exactly `buf`, whatever it held
+    before. The std::fs calls on the path are given their documented effect on (length, write position); the old
+    length is a free integer."""
+    S = L.smt
+    fs = [f for f in ML.find(r"::write_file$") if len(f.args) == 3 and "String" in f.args[2][1]]
+    if len(fs) != 1:
+        o.inconc("DefaultFileSystem::write_file not found (%d candidates)" % len(fs))
+        return
+    f = fs[0]
+    o.functions.append(mirlib.func_ref(f, "oal-client"))
+    ex = mirlib.executor([ML])
+    n_ok = 0
+    for p in ex.run(f, arg_names=["self", "loc", "buf"]):
+        if p.kind != "return" or not ms.show(p.ret).startswith("Result::Ok"):
+            continue
+        n_ok += 1
+        old_len, blen = z3.Int("old_len"), z3.Int("buf_len")
+        pre = [old_len >= 0, blen >= 0]
+        length, pos = old_len, z3.IntVal(0)
+        exact = z3.BoolVal(False)        # the bytes from 0 are exactly buf
+        flags = {}
+        unknown = []
+
+        def is_buf(t):
+            while t[0] in ("addr", "deref") or (t[0] == "app" and re.search(r"(as_bytes|as_ref|as_str|deref|borrow|as_slice|into_bytes|String::into|From::from)$", t[1])):
+                t = t[1] if t[0] in ("addr", "deref") else t[2][0]
+            return t == ("sym", "buf")
+
+        def const_bool(t):
+            return True if t == ms.TRUE else False if t == ms.FALSE else None
+
+        for e in p.calls():
+            nm = e[1]
+            if nm in ("locator_path",) or nm.endswith(("From::from", "Try::branch", "sync_all", "sync_data", "flush", "PathBuf.AsRef::as_ref", "Deref::deref")):
+                continue
+            if nm.endswith("fs::write"):
+                length, pos, exact = (blen if is_buf(e[2][1]) else z3.Int("other_len")), z3.IntVal(0), z3.BoolVal(is_buf(e[2][1]))
+            elif nm.endswith("File::create"):
+                length, pos, exact = z3.IntVal(0), z3.IntVal(0), z3.BoolVal(False)
+            elif nm.endswith("OpenOptions::new"):
+                flags = {}
+            elif re.search(r"OpenOptions::(write|create|truncate|append|create_new|read)$", nm):
+                b = const_bool(e[2][1])
+                if b is None:
+                    unknown.append(nm + " with a non-constant flag")
+                flags[nm.split("::")[-1]] = b
+            elif nm.endswith("OpenOptions::open"):
+                if flags.get("create_new"):
+                    pre.append(old_len == 0)
+                length = z3.IntVal(0) if flags.get("truncate") else old_len
+                pos = length if flags.get("append") else z3.IntVal(0)
+                exact = z3.BoolVal(False)
+            elif nm.endswith(("Write::write_all", "File::write_all", "Write::write")):
+                wl = blen if is_buf(e[2][1]) else z3.Int("other_len")
+                exact = z3.And(pos == 0, z3.BoolVal(is_buf(e[2][1])))
+                length = z3.If(pos + wl > length, pos + wl, length)
+                pos = pos + wl
+            elif nm.endswith("File::set_len"):
+                length = S.i(e[2][1])
+            elif re.search(r"(fs::|File::|OpenOptions::|io::)", nm):
+                unknown.append(nm)
+        if unknown:
+            o.inconc("write_file: file-system calls without a model: %s" % unknown[:3])
+            continue
+        L.expect_unsat("write_file: on success the target holds exactly the document, whatever it held before", pre + [z3.Not(z3.And(exact, length == blen))], on_sat)
+    if n_ok == 0:
+        o.inconc("write_file: no Ok path")
+    mirlib.check_translator(o, ex, "write_file")
+
+
 def real_cli_matrix():
     """Run the real oal-cli on one program per failure class with a pre-existing target."""
     try:
@@ -361,6 +435,14 @@ def real_cli_matrix():
         if want == 0:
             if rc != 0 or tgt is None or not tgt.startswith("openapi"):
                 mism.append("%s: rc=%s, target %s" % (name, rc, "not written" if tgt == SENTINEL else "odd"))
+            # the complete document and nothing else: same bytes as a run into a target that did not exist,
+            # also when the old target was much longer than the new document
+            fresh = run_cli(cli, files, workdir=os.path.join(rdir, name + ".fresh"))
+            longer = run_cli(cli, files, workdir=os.path.join(rdir, name + ".long"), pre_target="# old content\n" + "x: " + "y" * 200 + "\n" * 1 + ("# filler line\n" * 400))
+            detail[name]["same_as_fresh_target"] = (tgt == fresh["target"], longer["target"] == fresh["target"])
+            if fresh["rc"] != 0 or tgt != fresh["target"] or longer["rc"] != 0 or longer["target"] != fresh["target"]:
+                mism.append("%s: exit 0 but the target is not exactly the document (it differs from a run into a fresh target%s)" % (
+                    name, "; the old target was longer than the document" if longer["target"] != fresh["target"] else ""))
         else:
             if rc == 0:
                 mism.append("%s: exit 0 on an erroneous program" % name)
